@@ -231,6 +231,10 @@ pub enum MChoice {
 pub struct C12Case {
     pub op: OpSpec,
     pub m: MChoice,
+    /// Maximum Packet Size the CLIENT announces in its CONNECT (limits what it receives,
+    /// never what it sends)
+    #[serde(default)]
+    pub client_max: Option<u32>,
 }
 
 pub struct C12;
@@ -269,10 +273,11 @@ fn c12_op() -> BoxedStrategy<OpSpec> {
 
 const C12_R: u16 = 2;
 
-fn c12_world(m: Option<u32>) -> Result<World, String> {
+fn c12_world(m: Option<u32>, client_max: Option<u32>) -> Result<World, String> {
     let mut w = World::new();
     let connack = rc::Connack { maximum_packet_size: m, receive_maximum: Some(C12_R), ..Default::default() };
-    connect_and_run(&mut w, ConnectSpec::default(), &connack, &WritePlan::default())?;
+    let spec = ConnectSpec { maximum_packet_size: client_max, ..Default::default() };
+    connect_and_run(&mut w, spec, &connack, &WritePlan::default())?;
     Ok(w)
 }
 
@@ -282,7 +287,7 @@ impl Property for C12 {
     type Case = C12Case;
 
     fn strategy(_tier: Tier) -> BoxedStrategy<C12Case> {
-        (
+        let s = (
             c12_op(),
             prop_oneof![
                 3 => Just(MChoice::LMinus1),
@@ -293,7 +298,13 @@ impl Property for C12 {
                 1 => Just(MChoice::Absent),
             ],
         )
-            .prop_map(|(op, m)| C12Case { op, m })
+            .prop_map(|(op, m)| C12Case { op, m, client_max: None })
+            .boxed();
+        (s, prop_oneof![2 => Just(None), 1 => (8u32..64).prop_map(Some), 1 => Just(Some(1u32))])
+            .prop_map(|(mut c, cm)| {
+                c.client_max = cm;
+                c
+            })
             .boxed()
     }
 
@@ -312,7 +323,7 @@ impl Property for C12 {
         let mut o = Outcome::ok();
         let plan = WritePlan::default();
         // (1) measure L
-        let mut a = match c12_world(None) {
+        let mut a = match c12_world(None, None) {
             Ok(w) => w,
             Err(e) => return Outcome::fail("HARNESS/prologue", e),
         };
@@ -339,10 +350,13 @@ impl Property for C12 {
         }
         o.nontrivial = matches!(case.m, MChoice::LMinus1 | MChoice::L | MChoice::LPlus1);
         o.class(format!("M-{:?}", case.m));
+        if case.client_max.is_some() {
+            o.class("client-announces-own-maximum");
+        }
         o.class(case.op.kind());
         o.class(format!("L-{}", match l { 0..=127 => "<=127", 128..=16383 => "<=16383", _ => ">16383" }));
         // (2) the same request under M
-        let mut w = match c12_world(m) {
+        let mut w = match c12_world(m, case.client_max) {
             Ok(w) => w,
             Err(e) => return Outcome::fail("HARNESS/prologue", e),
         };
